@@ -183,7 +183,8 @@ theorem primsOK_addrsOK (P : Params) (h : Nat) : PrimsOK P h (invRel AddrsOK) :=
 /-- No balance is ever negative: for every chain of blocks, every address and every asset. -/
 theorem runBlocks_addrsOK (P : Params) (n : Node) (chain : List Block) (h : AddrsOK n.db) :
     AddrsOK (runBlocks P n chain).db :=
-  runBlocks_rel (P := P) (invRel AddrsOK) ⟨fun _ _ h => h⟩ (fun b => primsOK_addrsOK P b.height) n chain h
+  runBlocks_rel (P := P) (invRel AddrsOK) ⟨fun _ _ h => h⟩ (fun b => primsOK_addrsOK P b.height)
+    (fun _ => Step.guarded (fun _ h => h)) n chain h
 
 theorem bal_nonneg_of_addrsOK {db : DB} (h : AddrsOK db) (a : Addr) (t : Ticker) : 0 ≤ db.bal a t := by
   unfold DB.bal
